@@ -196,6 +196,8 @@ def load_known(pid):
 
 def finish(ctx, level, rule, assumptions, extra_cov=None, min_distinct=2, post=None):
     """Merge child logs → evidence, replays, exit code."""
+    if ctx.replay:
+        min_distinct = min(min_distinct, 1)
     evals = 0
     keys = set()
     stats = {}
@@ -257,6 +259,8 @@ def finish(ctx, level, rule, assumptions, extra_cov=None, min_distinct=2, post=N
                 save_log(ctx, c)
             else:
                 violations.append((sig, last_mark, dict(log_tail=logtext[-6000:]), c["name"]))
+        elif c["rc"] != 0 and c.get("race") and "race detected during execution of test" in logtext and "--- FAIL" in logtext and logtext.count("--- FAIL") == 1 and "panic:" not in logtext:
+            pass  # the only failure is the race detector's own verdict: races are diagnostics (DESIGN.md §3)
         elif c["rc"] != 0:
             # the Go test itself failed (t.Fatal in the harness): not a property verdict
             harness_errors.append("child %s: test binary exit %s: %s" % (c["name"], c["rc"], logtext[-1500:]))
